@@ -60,7 +60,8 @@ pub trait Dyn {
 pub trait JitterOps {
     fn set_rounds(&mut self, r: u8);
     fn timer_stats(&mut self, var: bool) -> i64;
-    fn test_timer(&mut self) -> Result<u8, String>;
+    /// Err: the variant's name and the text the error is displayed with
+    fn test_timer(&mut self) -> Result<u8, (String, String)>;
     fn set_pool(&mut self, p: u64);
     fn stir(&mut self);
     fn drain_reads(&self) -> Vec<u64>;
@@ -483,8 +484,8 @@ impl<F: Fn() -> u64 + Send + Sync + Clone + 'static> JitterOps for DJitter<F> {
     fn timer_stats(&mut self, var: bool) -> i64 {
         self.rng.timer_stats(var)
     }
-    fn test_timer(&mut self) -> Result<u8, String> {
-        self.rng.test_timer().map_err(|e| format!("{:?}", e))
+    fn test_timer(&mut self) -> Result<u8, (String, String)> {
+        self.rng.test_timer().map_err(|e| (format!("{:?}", e), format!("{}", e)))
     }
     fn set_pool(&mut self, p: u64) {
         self.rng.verif_set_pool(p)
@@ -516,7 +517,12 @@ pub enum Ctor<'a> {
     DeBincode(&'a [u8]),
     #[cfg(feature = "serde1")]
     DeJson(&'a str),
+    /// the generator as the middle field of a (u32, generator, u64) tuple in bincode
+    #[cfg(feature = "serde1")]
+    DeEmbedded(&'a [u8]),
 }
+pub const EMB_BEFORE: u32 = 0x5EED_C0DE;
+pub const EMB_AFTER: u64 = 0x0123_4567_89AB_CDEF;
 
 pub enum Built {
     Ok(Box<dyn Dyn>),
@@ -541,6 +547,8 @@ macro_rules! build {
             Ctor::DeBincode(b) => build!(@debin $w, $ty, b, $s),
             #[cfg(feature = "serde1")]
             Ctor::DeJson(t) => build!(@dejson $w, $ty, t, $s),
+            #[cfg(feature = "serde1")]
+            Ctor::DeEmbedded(b) => build!(@deemb $w, $ty, b, $s),
         }
     }};
     (@debin $w:ident, $ty:ty, $b:expr, yes) => {
@@ -549,6 +557,14 @@ macro_rules! build {
             Err(e) => Built::Unsupported(format!("deserialize: {}", e)),
         }
     };
+    (@deemb $w:ident, $ty:ty, $b:expr, yes) => {
+        match bincode::deserialize::<(u32, $ty, u64)>($b) {
+            Ok((a, r, z)) if a == EMB_BEFORE && z == EMB_AFTER => Built::Ok(Box::new($w(r))),
+            Ok((a, _, z)) => Built::Unsupported(format!("deserialize: the values around the generator came back as {:#x}, {:#x}", a, z)),
+            Err(e) => Built::Unsupported(format!("deserialize: {}", e)),
+        }
+    };
+    (@deemb $w:ident, $ty:ty, $b:expr, no) => {{ let _ = $b; Built::Unsupported("no serde".into()) }};
     (@debin $w:ident, $ty:ty, $b:expr, no) => {{ let _ = $b; Built::Unsupported("no serde".into()) }};
     (@dejson $w:ident, $ty:ty, $t:expr, yes) => {
         match serde_json::from_str::<$ty>($t) {
